@@ -123,7 +123,13 @@ func (pres *Presence) UnmarshalXML(d *xml.Decoder, start xml.StartElement) error
 			} else {
 				// Decode standard message sub-elements
 				var err error
-				switch tt.Name.Local {
+				local := tt.Name.Local
+				if tt.Name.Space != start.Name.Space {
+					// An element of another namespace that happens to be called show,
+					// status, priority, ... is an unknown extension, not ours.
+					local = ""
+				}
+				switch local {
 				case "show":
 					err = d.DecodeElement(&pres.Show, &tt)
 				case "status":
